@@ -49,6 +49,7 @@ extern "C" void harness(void)
   cm[2] = e2.get();
 #endif
 #line 300
+  unsigned nx = vf_num((unsigned long)(long)x);   // the actual argument, as a watched number in report texts
   auto &active = m.trompeloeil_l_expectations_100.active;
   auto &saturated = m.trompeloeil_l_expectations_100.saturated;
   for (int i = 0; i < VF_N; ++i)
@@ -75,6 +76,7 @@ extern "C" void harness(void)
   if (!accept)
   {
     VCLAIM(1, vf_nreports == 1 && vf_first.fatal, "C01.reject_exactly_one_fatal");
+    VCLAIM(15, (vf_first.nmask & nx) != 0, "C15.violation_report_prints_the_actual_argument");
     VCLAIM(1, vf_nlog == 0, "C01.reject_no_side_effect");
     for (int i = 0; i < VF_N; ++i)
       VCLAIM(1, cm[i]->sequences->get_calls() == c[i], "C01.reject_no_count_change");
@@ -82,6 +84,9 @@ extern "C" void harness(void)
     if (handler >= 0)   // forbidden candidate: report carries that expectation's location (C07)
     {
       VCLAIM(7, vf_first.line == cm[handler]->loc.line && vf_first.file == cm[handler]->loc.file, "C07.forbidden_report_location");
+      VCLAIM(7, (vf_first.nmask & nx) != 0, "C07.forbidden_report_prints_the_actual_argument");
+      VCLAIM(15, (vf_first.nmask & nx) != 0, "C15.forbidden_report_prints_the_actual_argument");
+      VCLAIM(15, vf_first.line == cm[handler]->loc.line && vf_first.fatal, "C15.forbidden_report_fatal_with_expectations_location");
       VCLAIM(7, cm[handler]->is_satisfied() && cm[handler]->is_saturated(), "C07.forbidden_flags");
       VCLAIM(7, cm[handler]->is_linked() && cm[handler]->sequences->is_forbidden(), "C07.forbidden_stays");
     }
